@@ -201,7 +201,7 @@ but no other interpretation is applied
                         #
                         # Be nice; they should say PRODUCT_DIR but sometimes PRODUCT is spelled out, e.g. EUPS_DIR
                         #
-                        regexp = r"\${%s}" % utils.dirEnvNameFor(product.name)
+                        regexp = r"\${%s}" % re.escape(utils.dirEnvNameFor(product.name))
                         if re.search(regexp, value):
                             if product.dir:
                                 value = re.sub(regexp, product.dir, value)
